@@ -552,7 +552,9 @@ def pair_signature(i1, i2):
             sts = [s for s in STYLES if pair_fails(('adapt:' + s, n1, l1), ('adapt:' + s, n2, l2))]
             where = 'adapt_sql[same style: %s]' % '+'.join(sts)
         else:
-            where = 'adapt_sql[%s then %s]' % (c1[6:], c2[6:])
+            prs = [(a, b) for a in STYLES for b in STYLES if a != b and pair_fails(('adapt:' + a, n1, l1), ('adapt:' + b, n2, l2))]
+            if len(prs) == len(STYLES) * (len(STYLES) - 1): where = 'adapt_sql[any two different styles]'
+            else: where = 'adapt_sql[%s]' % ', '.join('%s then %s' % pr for pr in prs)
     else:
         where = '%s then %s' % (c1, c2)
     sig = 'history|%s|first=%s second=%s' % (where, json.dumps(lib.text_of(n1, 'raw')), json.dumps(lib.text_of(n2, 'raw')))
